@@ -20,6 +20,24 @@ CHECKS = {
         "DESIGN.md §4 C01",
         TRUSTED + " Architectures are realizable ones (leaf importers); ambiguous documentation corners are counted, not judged.",
     ),
+    "C03": (
+        "exhaustive enumeration of architectures x rules; every failure message parsed with an anchored grammar and compared both ways with the model's violating sets; query methods compared with the model",
+        "Same complete spaces as C01. Every AssertionError message produced by the real implementation is parsed line by line and the reported import set and missing-import lines are compared in both directions with the independent model (three-valued where the documentation admits two readings); the three EvaluableArchitecture query methods are compared with the model for every (subjects, objects) choice.",
+        "DESIGN.md §4 C03",
+        TRUSTED + " Message grammar as stated in the evidence assumptions; an unparsable line is itself a violation.",
+    ),
+    "C11": (
+        "exhaustive enumeration of architectures x generated regex/glob families x rule shapes; differential against the harness-computed expansion; batches vs conjunction of single rules",
+        "For every architecture in the bounds (under a collision-free and an adversarial naming) every regex / glob of a family generated from the architecture's own names is applied on either side of all 12 rule shapes with the real implementation and compared with the rule naming the harness-computed match list; empty match sets must raise, never give a verdict; every batch of 2-3 subjects/objects (related modules included) is compared with the conjunction of the single rules.",
+        "DESIGN.md §4 C11",
+        TRUSTED + " Differential: both sides run the real implementation; the expansion list itself is computed independently with re.match / the literal glob model.",
+    ),
+    "C12": (
+        "exhaustive enumeration of architectures x all subject/object choices; algebraic laws checked between implementation outcomes (oracle-free), monotonicity over every addable edge",
+        "For every architecture in the bounds and every choice of 1-2 subjects and objects (ancestor/descendant pairs included) the duality, negation, decomposition and alias laws are evaluated on the real implementation, and for every addable import edge between unrelated modules the monotonicity law is checked between G and G+e. Complete within the printed bounds.",
+        "DESIGN.md §4 C12",
+        TRUSTED + " No reference model: the laws relate implementation outcomes to each other.",
+    ),
 }
 
 PENDING = {}
